@@ -36,6 +36,7 @@ def run(ctx):
     plots.c17_mesh_rule(ctx, "C17.R11")
     plots.c17_scatter_norm_rule(ctx, "C17.R12")
     plots.c17_cmap_state_rule(ctx, "C17.R13")
+    plots.c17_cmap_sites_rule(ctx, "C17.R14")
 
     def sources(fi):
         s = set()
